@@ -183,13 +183,128 @@ func nonVar(rs aa.Rules) []string {
 	return out
 }
 
+// tunablesAlphabet: lines of files that are resolved on top of the built-in table (aa.DefaultTunables), the way the
+// userspace builder and the exec directive do it; some append to a built-in variable
+var tunablesAlphabet = []string{
+	"@{exec_path} = @{lib}/t",
+	"@{exec_path} = @{bin}/t",
+	"@{exec_path} += @{lib}/u",
+	"@{lib} += /opt/lib",
+	"@{bin} += /opt/bin",
+	"@{exec_path} = @{etc_ro}/t @{bin}/v",
+	"@{etc_ro} += /opt/etc",
+}
+
+// resolveOnTunables: the real code, as builder.Userspace calls it
+func resolveOnTunables(lines []string) (vals []string, err string) {
+	defer func() {
+		if p := recover(); p != nil {
+			err = "panic: " + fmt.Sprint(p)
+		}
+	}()
+	f := aa.DefaultTunables()
+	if _, e := f.Parse(strings.Join(lines, "\n") + "\nprofile p @{exec_path} {\n}\n"); e != nil {
+		return nil, "parse: " + e.Error()
+	}
+	if e := f.Resolve(); e != nil {
+		return nil, "resolve: " + e.Error()
+	}
+	if len(f.Profiles) == 0 {
+		return nil, "no profile"
+	}
+	return setOf(f.Profiles[0].Attachments), ""
+}
+
+// tunablesMode: every sequence of <= depth files (each file = a sequence of <= 3 distinct alphabet lines the reference
+// accepts) resolved one after the other in this process: the k-th result must be the reference expansion of
+// (built-in table as it was at process start + the file's own lines), whatever was resolved before it.
+func tunablesMode(depth int, w *json.Encoder) {
+	table := []string{}
+	for _, v := range aa.DefaultTunables().Preamble.GetVariables() {
+		table = append(table, "@{"+v.Name+"} = "+strings.Join(v.Values, " "))
+	}
+	type file struct {
+		lines []string
+		want  []string
+	}
+	files := []file{}
+	enum.Perms(len(tunablesAlphabet), 3, 0, 1, func(seq []int) {
+		l := []string{}
+		for _, i := range seq {
+			l = append(l, tunablesAlphabet[i])
+		}
+		ref := reference(append(append([]string{}, table...), l...))
+		if ref.Class != "ok" {
+			return
+		}
+		files = append(files, file{l, ref.Values["exec_path"]})
+	})
+	viol := map[string]*violation{}
+	count := map[string]int{}
+	n := 0
+	idx := make([]int, depth)
+	var rec func(k int)
+	rec = func(k int) {
+		if k > 0 {
+			// replay the whole history: earlier files first, then judge the last one
+			n++
+			hist := []string{}
+			var got []string
+			var err string
+			for j := 0; j < k; j++ {
+				got, err = resolveOnTunables(files[idx[j]].lines)
+				hist = append(hist, strings.Join(files[idx[j]].lines, " ; "))
+			}
+			f := files[idx[k-1]]
+			sig := ""
+			what := ""
+			switch {
+			case err != "":
+				sig, what = "tunables-resolve-fails", "Resolve on the built-in table fails: "+err
+			case !eq(got, f.want):
+				sig = "tunables-history-dependent"
+				if k == 1 {
+					sig = "tunables-wrong-values"
+				}
+				what = fmt.Sprintf("file %d of the in-process history resolves its attachment to %v, the reference expansion over the built-in table is %v", k, got, f.want)
+			}
+			if sig != "" {
+				count[sig]++
+				if _, ok := viol[sig]; !ok {
+					viol[sig] = &violation{sig, what, hist}
+				}
+			}
+		}
+		if k == depth {
+			return
+		}
+		for i := range files {
+			idx[k] = i
+			rec(k + 1)
+		}
+	}
+	rec(0)
+	vs := []violation{}
+	for _, v := range viol {
+		v.What = fmt.Sprintf("%s (x%d)", v.What, count[v.Sig])
+		vs = append(vs, *v)
+	}
+	sort.Slice(vs, func(i, j int) bool { return vs[i].Sig < vs[j].Sig })
+	w.Encode(map[string]any{"sequences": n, "files": len(files), "violations": vs, "alphabet": tunablesAlphabet, "table": table})
+}
+
 func main() {
 	maxLen := flag.Int("len", 4, "max number of preamble lines")
 	shard := flag.Int("shard", 0, "")
 	of := flag.Int("of", 1, "")
 	dump := flag.Bool("dump", false, "")
+	tun := flag.Int("tunables", 0, "history depth of the built-in-table mode (0 = off)")
 	flag.Parse()
 	w := json.NewEncoder(os.Stdout)
+	if *tun > 0 {
+		tunablesMode(*tun, w)
+		return
+	}
 	classes := map[string]int{}
 	viol := map[string]*violation{}
 	violCount := map[string]int{}
